@@ -15,7 +15,7 @@ Theorem C11_reset_is_fresh : forall m, fresh (RequestCtx_reset m) /\ fresh (loop
 Proof. intros m. exact (conj (ctx_reset_is_fresh m) (loop_end_reset_is_fresh m)). Qed.
 Print Assumptions C11_reset_is_fresh.
 
-(* every field of RequestCtx (103 flattened paths) is either zeroed by RequestCtx.reset or listed as
+(* every field of RequestCtx (104 flattened paths) is either zeroed by RequestCtx.reset or listed as
    configuration / scratch in the spec: nothing is unaccounted for *)
 Theorem C11_all_fields_classified :
   forallb (fun f => zero_after KCtxReset f || mem f config_fields || mem f scratch_fields) all_fields = true.
@@ -50,23 +50,22 @@ Theorem C11_dispatch_independent_of_history : forall c qs q st,
 Proof. exact dispatch_independent_of_history. Qed.
 Print Assumptions C11_dispatch_independent_of_history.
 
-(* The read deadline under which a request is read is the one its own HeaderReceived answer or the
-   server's ReadTimeout prescribe — PROVIDED the server has a ReadTimeout or IdleTimeout, or no earlier
-   request of the connection was given a per-request ReadTimeout ... *)
+(* The read deadline under which a request's body is read is the one its own HeaderReceived answer or
+   the server's ReadTimeout prescribe, after ANY history (unconditional since fix cbb8567; before it
+   this held only when the server had a ReadTimeout/IdleTimeout or no earlier request had an override,
+   and a refutation witness was a theorem here). *)
 Theorem C11_read_deadline_independent_of_history : forall c qs q st,
   wf_scfg c -> lafter c (linit c) qs = Some st -> q_head_ok q = true ->
-  (0 < sc_readTimeout c \/ 0 < sc_idleTimeout c \/ no_override c qs) ->
   d_rdl_body (fst (lstep c st q)) = spec_rdl_body c q.
 Proof. exact read_deadline_independent. Qed.
 Print Assumptions C11_read_deadline_independent_of_history.
 
-(* ... and without that proviso it is false (finding headerreceived-readtimeout-leaks): with no server
-   timeouts, a 5 s read deadline armed for one request stays armed for the next one *)
-Theorem C11_read_deadline_independent_of_history_refuted :
-  exists c qs q st, wf_scfg c /\ Forall wf_lreq (q :: qs) /\ lafter c (linit c) qs = Some st /\ q_head_ok q = true /\
-    d_rdl_body (fst (lstep c st q)) <> spec_rdl_body c q.
-Proof. exact read_deadline_independent_refuted. Qed.
-Print Assumptions C11_read_deadline_independent_of_history_refuted.
+(* the per-request deadline of one request is cleared before the next one is read *)
+Theorem C11_override_is_cleared :
+  map (fun d => (d_rdl_body d, d_calls d)) (fst (lrun wit_scfg (linit wit_scfg) [wit_q1; wit_q2]))
+  = [(5, [DRead 5]); (0, [DRead 0])].
+Proof. exact override_is_cleared. Qed.
+Print Assumptions C11_override_is_cleared.
 
 (* non-vacuity *)
 Example C11_ex_reset_clears : RequestCtx_reset dirty "Request.userValues" = 0 /\ RequestCtx_reset dirty "Response.Header.statusCode" = 0
